@@ -108,3 +108,35 @@ func HarnessAdmission() {
 	vh.Assert("C18/ban-lasts-the-configured-duration", isBanned && end.Unix() >= b0.Unix()+dur && end.Unix() <= b1.Unix()+dur)
 	vh.Reach("admitted")
 }
+
+// HarnessBan (C18): a ban step from an arbitrary peer state - the host may already have a ban
+// entry, expired or still running (a second misbehaving peer of the same host). Afterwards the
+// host is banned from now for exactly the configured duration, and a connection from it inside
+// that time is refused.
+func HarnessBan() {
+	log := vh.Logger()
+	s := &server{log: log, p2pConfig: &config.P2PConfig{BanDuration: time.Duration(1+vh.Choose(2)) * time.Hour}}
+	sp := &serverPeer{Peer: peerpkg.HarnessPeerWith(log, vh.NondetBool("inbound"), c18Host+":8333", 1_000_000), server: s, log: log}
+	filler := &serverPeer{Peer: peerpkg.HarnessPeerWith(log, true, "10.9.9.9:8333", 7), log: log}
+	group := addrmgr.GroupKey(sp.NA())
+	t0 := vh.Now()
+	st, cnt, grp, _, _ := c18State(filler, group, t0)
+	total := st.Count()
+
+	b0 := vh.Now()
+	s.handleBanPeerMsg(st, sp.Peer)
+	b1 := vh.Now()
+	vh.Assume(b1.Unix()-t0.Unix() <= 1)
+	end, isBanned := st.banned[c18Host]
+	dur := int64(s.p2pConfig.BanDuration / time.Second)
+	vh.Assert("C18/ban-runs-from-the-latest-ban", isBanned && end.Unix() >= b0.Unix()+dur && end.Unix() <= b1.Unix()+dur)
+	vh.Assert("C18/ban-changes-no-counter", st.Count() == total && st.connectionCount[c18Host] == cnt && st.outboundGroups[group] == grp)
+
+	// another peer of that host tries to connect while the ban runs
+	sp2 := &serverPeer{Peer: peerpkg.HarnessPeerWith(log, true, c18Host+":18333", 1_000_001), server: s, log: log}
+	admitted := s.handleAddPeerMsg(st, sp2)
+	t2 := vh.Now()
+	vh.Assume(t2.Unix()-b1.Unix() <= 1)
+	vh.Assert("C18/banned-host-is-refused-while-the-ban-runs", !admitted && peerpkg.HarnessDisconnected(sp2.Peer))
+	vh.Reach("end")
+}
